@@ -153,7 +153,7 @@ func (c *nxCluster) onResult(op *nxOp, r RequestResult) {
 		c.completedW[op.val] = true
 	}
 	select {
-	case r2 := <-op.rs.ResultC():
+	case r2 := <-op.rs.CompletedC:
 		c.fail("C12: request op %d received a second result %v after %s", op.id, r2, op.status)
 	default:
 	}
@@ -258,6 +258,45 @@ func (c *nxCluster) check() string {
 			c.fail("C04: write %d was reported Completed but its entry (index %d) is durable on only %d of %d replicas", op.val, op.index, n, len(c.hosts))
 		}
 	}
+	// C12: every accepted request gets a terminal result when the shard stops,
+	// and by tick-driven expiry shortly after its deadline at the latest
+	for _, op := range c.ops {
+		if op.rs == nil || op.ret != 0 || op.readyAt != 0 || op.status == "lost-in-crash" {
+			continue
+		}
+		h := c.byID[op.at]
+		if op.incar != h.incar {
+			continue
+		}
+		if !h.up && h.stoppedAt > 0 {
+			c.fail("C12: %c request op%d at replica %d still has no terminal result after the shard was stopped", op.kind, op.id, h.id)
+		} else if h.up && h.node.pendingReadIndexes.getTick() > op.deadline+3 {
+			c.fail("C12: %c request op%d at replica %d (deadline tick %d) has no result at tick %d", op.kind, op.id, h.id, op.deadline,
+				h.node.pendingReadIndexes.getTick())
+		}
+	}
+	// C11: every committed user entry is delivered to the user SM exactly once, in order
+	for _, h := range c.hosts {
+		if !h.up {
+			continue
+		}
+		la := h.node.sm.GetLastApplied()
+		want := 0
+		for i := range c.applied {
+			if i <= la {
+				want++
+			}
+		}
+		got := 0
+		for i := range h.seenUpdates {
+			if i <= la {
+				got++
+			}
+		}
+		if got != want {
+			c.fail("C11: replica %d applied index %d but its user SM received %d of the %d user entries up to there", h.id, la, got, want)
+		}
+	}
 	if c.viol == "" && c.linCheck != nil {
 		if m := c.linCheck(c); m != "" {
 			c.fail("%s", m)
@@ -277,7 +316,7 @@ func (c *nxCluster) Canon() []byte {
 			raft.VPeer{P: &n.p}.Canon(b)
 			b.U(n.appliedIndex, n.pushedIndex, n.confirmedIndex, n.sm.GetLastApplied(), h.usm.val, h.usm.version, h.lastUpdIdx)
 			b.Bool(h.pipe.step).Bool(h.pipe.apply).Bool(h.pipe.commit).Bool(h.pipe.save).Bool(h.pipe.recover).Bool(c.lazy[h.id])
-			b.U(n.pendingReadIndexes.getTick(), h.maxTermSent)
+			b.U(h.maxTermSent)
 		}
 		st := h.db.State(nxShard, h.id)
 		ss, _ := h.db.GetSnapshot(nxShard, h.id)
@@ -297,12 +336,34 @@ func (c *nxCluster) Canon() []byte {
 		}
 	}
 	b.Sep('O')
+	// only the relative order of invocations and responses matters
+	var stamps []int
 	for _, op := range c.ops {
-		b.U(uint64(op.kind), op.at, op.val, uint64(op.call), uint64(op.ret), op.out, uint64(op.readyAt), uint64(op.incar)).S(op.status)
+		stamps = append(stamps, op.call, op.ret, op.readyAt)
+	}
+	sort.Ints(stamps)
+	rank := func(t int) uint64 {
+		if t == 0 {
+			return 0
+		}
+		return uint64(sort.SearchInts(stamps, t)) + 1
+	}
+	for _, op := range c.ops {
+		b.U(uint64(op.kind), op.at, op.val, rank(op.call), rank(op.ret), op.out, rank(op.readyAt), uint64(op.incar), uint64(op.committed)).S(op.status)
+		if op.ret == 0 && op.rs != nil {
+			h := c.byID[op.at]
+			if h.up && op.incar == h.incar {
+				// remaining ticks to the deadline
+				now := h.node.pendingReadIndexes.getTick()
+				if op.deadline > now && op.deadline-now < 8 {
+					b.U(op.deadline - now)
+				}
+			}
+		}
 	}
 	u := c.used
 	b.Sep('B').U(uint64(u.timeouts), uint64(u.ticks), uint64(u.crashes), uint64(u.drops), uint64(u.dups), uint64(u.reorders),
-		uint64(u.writes), uint64(u.reads), uint64(u.lazy), uint64(u.heartbeats), uint64(u.transfers), uint64(c.devs), uint64(c.spos))
+		uint64(u.writes), uint64(u.reads), uint64(u.lazy), uint64(u.heartbeats), uint64(u.transfers), uint64(u.stops), uint64(c.devs), uint64(c.spos))
 	ks := make([]uint64, 0)
 	for k := range c.leaderOf {
 		ks = append(ks, k)
